@@ -56,7 +56,7 @@ SHARE = {"copy": "copy", "setsub": "assign-msg", "setsubfrom": "assign-submsg", 
          "rm.set0": "setitem-msg"}
 OPS_QUICK = ["new", "copy", "freeze", "seti", "setsub", "setsubnew", "setsubfrom", "setr", "setrfrom", "setrm", "setrmnew",
              "setrmfrom", "setmp", "setmpfrom", "sub.seti", "r.append", "r.set0", "rm0.seti", "mp.setb", "view.sub", "view.r",
-             "view.rm", "view.mp", "view.rm0", "v.append", "v.set0", "v0.seti", "v.setb"]
+             "view.rm", "view.mp", "view.rm0", "v.append", "v.set0", "v0.seti", "v.setb", "clr.i", "clr.sub", "clr.r", "clr.rm", "clr.mp"]
 OPS_RICH = ["rm.append", "rm.set0", "vm.append"]
 CREATES = ("new", "copy", "view.sub", "view.r", "view.rm", "view.mp", "view.rm0")
 
